@@ -105,6 +105,74 @@ func c01ChainCase(rep Rep, max int) (key, detail string, n int) {
 	return "", "", n
 }
 
+// ladderSteeredReps returns scalings of G chosen so that an INTERMEDIATE of the ladder, not just its input, sits at
+// a carry boundary of the multiplication by 3b: when the top bit of the scalar is set the ladder's first step is
+// O + P, whose output (for the complete formulas: homogeneous of degree 2 in P's coordinates) is doubled next, and
+// that doubling multiplies Z'^2 by 3b. lambda is solved (two square roots) so that the stored limbs of Z'^2 are
+// floor(k * 2^256 / 21) + {-2^20, -1}. The Z' for lambda = 1 is obtained by running the library's own Add once; if
+// the implementation's first steps are different the points are simply ordinary scalings - harmless.
+func ladderSteeredReps() []Rep {
+	g := ref.G()
+	probe := secp256k1.NewElement().Add(newElement(Rep{g, big.NewInt(1)}))
+	_, _, zr := secp256k1.VerifRaw(probe)
+
+	if !canonicalLimbs(zr, pLimbs) {
+		return nil
+	}
+
+	z1 := ref.Unmont(zr, ref.P)
+	if z1.Sign() == 0 {
+		return nil
+	}
+
+	qrRoot := func(v *big.Int) *big.Int { // the square root that is itself a square (p = 3 mod 4), or nil
+		r := ref.Fp.Sqrt(v)
+		if r == nil || ref.Fp.Sqr(r).Cmp(ref.Mod(v, ref.P)) != 0 {
+			return nil
+		}
+
+		if !ref.Fp.IsSquare(r) {
+			r = ref.Fp.Neg(r)
+		}
+
+		return r
+	}
+
+	var out []Rep
+
+	for k := int64(1); k < 21; k++ {
+		base := new(big.Int).Div(new(big.Int).Mul(big.NewInt(k), ref.Two256()), big.NewInt(21))
+
+		for _, d := range []int64{-(1 << 20), -1} {
+			pat := new(big.Int).Add(base, big.NewInt(d))
+			if pat.Cmp(ref.P) >= 0 {
+				continue
+			}
+
+			want := ref.Unmont(ref.Limbs(pat), ref.P)           // value of Z'^2
+			l4 := ref.Fp.Mul(want, ref.Fp.Inv0(ref.Fp.Sqr(z1))) // lambda^4 (Z' = lambda^2 * z1, so Z'^2 = lambda^4 * z1^2)
+
+			if !ref.Fp.IsSquare(l4) {
+				continue
+			}
+
+			l2 := qrRoot(l4)
+			if l2 == nil {
+				continue
+			}
+
+			l := ref.Fp.Sqrt(l2)
+			if l == nil || l.Sign() == 0 || ref.Fp.Sqr(l).Cmp(l2) != 0 {
+				continue
+			}
+
+			out = append(out, Rep{g, l})
+		}
+	}
+
+	return out
+}
+
 // C01real checks Multiply on (point alphabet x scalings) x scalar alphabet of the real curve.
 func C01real(r *ev.Report) {
 	level, nLam, chain := 0, 2, 300
@@ -188,6 +256,30 @@ func C01real(r *ev.Report) {
 			r.Violation(key, detail, c)
 		}
 	})
+
+	// coordinate-pattern and constant-multiplication-boundary representations with a short scalar list
+	ext := append(CoordPatternReps(), ConstMulBoundaryReps()...)
+	steered := ladderSteeredReps()
+	ext = append(ext, steered...)
+	r.Bound("ladder_steered_representations", len(steered))
+	short := []*big.Int{big.NewInt(0), big.NewInt(2), big.NewInt(3), big.NewInt(5), new(big.Int).Sub(ref.N, big.NewInt(1)), new(big.Int).Lsh(big.NewInt(1), 255),
+		new(big.Int).Add(new(big.Int).Lsh(big.NewInt(1), 255), big.NewInt(12345)), new(big.Int).Lsh(big.NewInt(3), 254), new(big.Int).Lsh(big.NewInt(1), 254)}
+	r.Bound("pattern_representations", len(ext))
+
+	r.ParFor(len(ext), func(_, i int) {
+		for _, k := range short {
+			r.Transitions.Add(1)
+			r.Evals.Add(1)
+
+			if key, detail := c01Case(ext[i], k, ref.Secp.Mul(k, ext[i].P)); key != "" {
+				c := Case{"op": "Multiply", "k": hx(k)}
+				repCase("p", ext[i], c)
+				r.Violation(key, detail, c)
+			}
+		}
+	})
+
+	r.States.Add(int64(len(ext) * len(short)))
 
 	c := Case{"op": "Multiply", "k": hx(new(big.Int).Sub(ref.N, big.NewInt(1)))}
 	repCase("p", reps[3].Rep, c)
